@@ -115,6 +115,17 @@ CHECKS["C11"] = {
             "at quiescence points (settle) of the bubble",
     "technique": "TLC design check of the cloud-stage model + TLC trace validation of real executions driven by TLC-enumerated schedules",
 }
+CHECKS["C04"] = {
+    "text": "TLC checks the index arithmetic of Flush (TimerStats.tla IndexSafe) and the shape preconditions of every payload builder "
+            "against the shapes the aggregator can produce (BackendShapes.tla), refuting the code as found; the TLC-enumerated value "
+            "bags / histories are then replayed into the real aggregator under recover(), and every flushed map -- also the flush of a "
+            "persisted idle series -- is handed to all 18 backend variants over in-memory transports under 5 sub-metric masks and small "
+            "batch sizes: no panic anywhere, one completion callback each.",
+    "design_ref": "6/C04",
+    "note": "n <= 5 values, <= 3 buckets; backends built through their real NewClientFromViper with scripted transports "
+            "(cloudwatch through the package's client interface); a test process killed inside gostatsd code is attributed to C04",
+    "technique": "TLC shape/index invariants + TLC-enumerated aggregate states replayed through aggregator and all backend payload builders",
+}
 NOT_APPLICABLE = [{"property_id": p, "reason": "check not built yet (build in progress; see DESIGN.md Appendix B for the order)"}
                   for p in ALL if p not in CHECKS]
 ENGINES[0]["serves_properties"] = sorted(CHECKS)
